@@ -544,7 +544,7 @@ void CSC_to_CSC(const CSCMatrix* A, CSCMatrix* B, std::vector<T>& A_vals,
 
     B->idx1.resize(A->n_cols + 1);
     B->idx2.resize(A->nnz);
-    B->vals.resize(A->nnz);
+    B_vals.resize(A->nnz);
 
     B->idx1[0] = 0;
     for (int i = 0; i < A->n_cols; i++)
